@@ -409,7 +409,9 @@ class Canon:
         if op == "upd":
             base, key, val = self.canon(a[0]), self.canon(a[1]), self.canon(a[2])
             # x[x < 0] = 0  is relu(x)
-            if key.op == "cmp" and key.args[0] == "<" and key.args[1] is base and _is_zero(key.args[2]) and _is_zero(val):
+            if key.op == "cmp" and key.args[0] == "<" and _is_zero(val) and (
+                    (key.args[1] is base and _is_zero(key.args[2]))
+                    or (_is_zero(key.args[1]) and key.args[2] is self._num(-self._as_rat(base)))):
                 return mk("fn", "relu", base)
             return mk("upd", base, key, val)
         if op == "call":
@@ -448,6 +450,17 @@ class Canon:
             o, l, r = "<", r, l
         elif o == ">=":
             o, l, r = "<=", r, l
+        if o in ("<", "<=", "==", "!=") and (l.op == "rat" or r.op == "rat") and not _is_str(l) and not _is_str(r):
+            # numeric comparison: compare (l - r) with 0, with a fixed sign convention
+            d = self._as_rat(l) - self._as_rat(r)
+            if d.den.is_const() and d.num.terms:
+                lead = d.num.terms[min(d.num.terms, key=lambda m: tuple((a.uid, e) for a, e in m))]
+                if lead < 0:
+                    d = -d
+                    if o in ("<", "<="):
+                        # -(l - r) = r - l ;  l < r  <=>  0 < r - l
+                        return mk("cmp", o, const(0), self._num(d))
+                return mk("cmp", o, self._num(d), const(0)) if o in ("<", "<=") else mk("cmp", o, const(0), self._num(d))
         if o in ("==", "!=", "is", "is not") and l.uid > r.uid:
             l, r = r, l
         return mk("cmp", o, l, r)
